@@ -70,7 +70,7 @@ def kw_swaps(src, limit_pos):
     return out
 
 def sh(cmd, cwd=None, env=None, timeout=1800):
-    return subprocess.run(cmd, shell=True, cwd=cwd, env=env, capture_output=True, text=True, timeout=timeout)
+    return subprocess.run(cmd, shell=True, cwd=cwd, env=env, capture_output=True, text=True, errors='replace', timeout=timeout)
 
 def main():
     ap = argparse.ArgumentParser()
